@@ -784,3 +784,115 @@ Proof.
   destruct (pcall_select fits target d idx df df' d tf Hne (fun c col => Hok fits c col F) S C) as [tf' [T C']].
   exists fits, tf'. auto.
 Qed.
+
+(* ------------------------------------------- typed category values: canon_cat DERIVED *)
+From Coq Require Import QArith.
+Local Open Scope nat_scope.
+
+Lemma norm_q_inj p q : norm_q p = norm_q q <-> (p == q)%Q.
+Proof.
+  unfold norm_q. split.
+  - intros H.
+    assert (E : Qred p = Qred q).
+    { destruct (Qred p) as [a b] eqn:Ep, (Qred q) as [c d] eqn:Eq. simpl in H.
+      destruct (Z.pos b =? 1)%Z eqn:B, (Z.pos d =? 1)%Z eqn:D; inversion H; subst.
+      - apply Z.eqb_eq in B, D. inversion B; inversion D; subst. reflexivity.
+      - reflexivity. }
+    rewrite <- (Qred_correct p), <- (Qred_correct q), E. reflexivity.
+  - intros H. now rewrite (Qred_complete p q H).
+Qed.
+
+Lemma norm_q_not_str q s : Forall (fun c => (0 <= c)%Z) s -> norm_q q <> VStr s.
+Proof.
+  unfold norm_q. intros W. destruct (Z.pos (Qden (Qred q)) =? 1)%Z; [discriminate|].
+  intros E. inversion E; subst. inversion W; subst. lia.
+Qed.
+
+(* the presentation to the untyped pipeline preserves exactly the merge-key equality *)
+Theorem norm_reflects_key_equality a b :
+  wf_tval a -> wf_tval b -> pval_eqb (norm a) (norm b) = key_eqb a b.
+Proof.
+  intros Wa Wb.
+  assert (R : forall x y : pval, (x = y <-> key_eqb a b = true) -> pval_eqb x y = key_eqb a b).
+  { intros x y H. destruct (key_eqb a b); [apply pval_eqb_eq; now apply H|].
+    apply pval_eqb_neq. intros E. apply H in E. discriminate. }
+  assert (ZQ : forall z, norm_q (inject_Z z) = VInt z) by (intros z; reflexivity).
+  apply R. destruct a as [z|p|pa|s], b as [z'|p'|pb|s']; unfold key_eqb; simpl tnum; cbn [norm].
+  - rewrite <- !ZQ, norm_q_inj. symmetry. apply Qeq_bool_iff.
+  - rewrite <- ZQ, norm_q_inj. symmetry. apply Qeq_bool_iff.
+  - split; [unfold norm_q; discriminate|discriminate].
+  - split; [discriminate|discriminate].
+  - rewrite <- ZQ, norm_q_inj. symmetry. apply Qeq_bool_iff.
+  - rewrite norm_q_inj. symmetry. apply Qeq_bool_iff.
+  - split; [|discriminate]. intros E. unfold norm_q in E. destruct (Z.pos (Qden (Qred p)) =? 1)%Z; inversion E.
+  - split; [|discriminate]. intros E. exfalso. exact (norm_q_not_str p s' Wb E).
+  - split; [discriminate|discriminate].
+  - split; [|discriminate]. intros E. unfold norm_q in E. destruct (Z.pos (Qden (Qred p')) =? 1)%Z; inversion E.
+  - split.
+    + intros E. inversion E as [E']. destruct pa, pb; try reflexivity; discriminate.
+    + intros E. destruct pa, pb; try reflexivity; discriminate.
+  - split; [|discriminate]. intros E. inversion E; subst. simpl in Wb. inversion Wb; subst. lia.
+  - split; [discriminate|discriminate].
+  - split; [|discriminate]. intros E. exfalso. symmetry in E. exact (norm_q_not_str p' s Wa E).
+  - split; [|discriminate]. intros E. inversion E; subst. simpl in Wa. inversion Wa; subst. lia.
+  - rewrite str_eqb_eq. split; [intros E; now inversion E|intros ->; reflexivity].
+Qed.
+
+(* the categorical mapper on typed keys IS the canonical cell of C01 on the normalised values:
+   `canon_cat` is derived for every mixture of value types, not assumed *)
+Theorem typed_merge_is_canon_cat cats c :
+  Forall wf_tval cats -> (forall v, c = Some v -> wf_tval v) ->
+  [SInt (typed_cat_cell cats c)] = canon_cat (map norm cats) (option_map norm c).
+Proof.
+  intros Wc Wv. destruct c as [v|]; [|reflexivity]. simpl. unfold canon_cat, index_of. do 2 f_equal.
+  specialize (Wv v eq_refl).
+  induction Wc as [|c0 r W0 Wr IH]; simpl; [reflexivity|].
+  rewrite (norm_reflects_key_equality c0 v W0 Wv). destruct (key_eqb c0 v); [reflexivity|].
+  destruct (typed_find r v), (find_index (map norm r) (norm v)); simpl in *; try congruence.
+  inversion IH as [E]. apply Nat2Z.inj in E. now subst.
+Qed.
+
+(* neighbours of the fitted categories *)
+Definition is_tint (v : tval) : Prop := match v with TInt _ => True | _ => False end.
+Definition is_tstr (v : tval) : Prop := match v with TStr _ => True | _ => False end.
+Definition is_tnumber (v : tval) : Prop := match v with TInt _ | TFloat _ => True | _ => False end.
+
+Lemma typed_find_none cats v : (forall c, In c cats -> key_eqb c v = false) -> typed_cat_cell cats (Some v) = (-1)%Z.
+Proof.
+  intros H. simpl. assert (E : typed_find cats v = None).
+  { induction cats as [|c r IH]; [reflexivity|]. simpl. rewrite (H c (or_introl eq_refl)).
+    rewrite IH; [reflexivity|]. intros; apply H; now right. }
+  now rewrite E.
+Qed.
+
+(* a non-integral float (2.5, 1.9, ...) is never an integer category, whatever it truncates or rounds to *)
+Theorem nonintegral_float_unseen cats q :
+  Forall is_tint cats -> (forall z, ~ (q == inject_Z z)%Q) -> typed_cat_cell cats (Some (TFloat q)) = (-1)%Z.
+Proof.
+  intros Hc Hq. apply typed_find_none. intros c Hin. rewrite Forall_forall in Hc. specialize (Hc c Hin).
+  destruct c as [z| | |]; try destruct Hc. unfold key_eqb. simpl.
+  destruct (Qeq_bool (inject_Z z) q) eqn:E; [|reflexivity].
+  apply Qeq_bool_iff in E. exfalso. apply (Hq z). now symmetry.
+Qed.
+
+(* ... while an integral float IS the integer category (pandas holds an integer column with missing cells as float) *)
+Theorem integral_float_is_the_integer cats z :
+  typed_cat_cell cats (Some (TFloat (inject_Z z))) = typed_cat_cell cats (Some (TInt z)).
+Proof.
+  simpl. assert (E : typed_find cats (TFloat (inject_Z z)) = typed_find cats (TInt z)).
+  { induction cats as [|c r IH]; [reflexivity|]. simpl. rewrite IH.
+    assert (K : key_eqb c (TFloat (inject_Z z)) = key_eqb c (TInt z)) by (destruct c; reflexivity).
+    now rewrite K. }
+  now rewrite E.
+Qed.
+
+(* a value of another type never matches: a string (or an infinity) among numbers, a number among strings *)
+Theorem other_type_unseen cats v :
+  (Forall is_tnumber cats /\ (is_tstr v \/ exists p, v = TInf p)) \/ (Forall is_tstr cats /\ ~ is_tstr v) ->
+  typed_cat_cell cats (Some v) = (-1)%Z.
+Proof.
+  intros H. apply typed_find_none. intros c Hin.
+  destruct H as [[Hc Hv]|[Hc Hv]]; rewrite Forall_forall in Hc; specialize (Hc c Hin).
+  - destruct c as [z|q| |]; try destruct Hc; destruct Hv as [Hv|[p ->]]; try (destruct v; try destruct Hv); reflexivity.
+  - destruct c as [| | |s]; try destruct Hc. destruct v; try reflexivity. exfalso. apply Hv. exact I.
+Qed.
